@@ -216,7 +216,7 @@ func (g *G) genSchema(depth int, refs []*Type, inObject bool) *Schema {
 		e := pick(r, g.enums)
 		v := pick(r, e.Values)
 		kind := map[string]string{"string": "str", "number": "int", "boolean": "bool", "null": "null"}[v.Tok]
-		if strings.Contains(v.Lit, ".") {
+		if v.Tok == "number" && strings.Contains(v.Lit, ".") {
 			kind = "float"
 		}
 		s = &Schema{Kind: kind, Lit: v.Lit, Str: v.SVal, Rules: []Rule{{"enum", e.Name, "reference", e.Name}}}
@@ -353,7 +353,7 @@ func (g *G) genPathSchema(path string) *Schema {
 				kind := "str"
 				if v.Tok == "number" {
 					kind = "int"
-					if strings.Contains(v.Lit, ".") {
+					if v.Tok == "number" && strings.Contains(v.Lit, ".") {
 						kind = "float"
 					}
 				}
@@ -631,7 +631,7 @@ func (g *G) genEnum(i int) *Enum {
 		var v EnumValue
 		switch r.Intn(6) {
 		case 0, 1:
-			s := pick(r, []string{"red", "green", "blue", "a b", ""})
+			s := pick(r, []string{"red", "green", "blue", "a b", "", "v1.0", "3.14", "a.b"})
 			v = EnumValue{Lit: lit(s), Tok: "string", SVal: s}
 		case 2, 3:
 			x := strconv.Itoa(r.Intn(50))
